@@ -15,7 +15,7 @@ COLS = ("a", "b", "c")
 
 
 def shapes(tier, seed):
-    depth = 2 if tier == "quick" else 3
+    depth = 2 if tier == "quick" else 4
     out = [{"kind": "pred", "ast": p} for p in exprgen.pred_pool(depth, wide=(tier == "thorough"))]
     out += [{"kind": "expr", "ast": e} for e in exprgen.expr_pool(2 if tier == "quick" else 3)]
     return out
@@ -163,7 +163,7 @@ def describe(tier):
                        "as_trivial / flatten_logical_and / Selection.__post_init__ / columns_required run for real, the real "
                        "iteration-engine callable runs under symx on a symbolic row restricted to columns_required, and z3 decides "
                        "each claim against an independent AST evaluator for all integer rows and literals (unbounded).",
-        "bounds": {"predicate nesting depth": 2 if tier == "quick" else 3, "operands": "0..3", "row values / literals": "unbounded integers",
+        "bounds": {"predicate nesting depth": 2 if tier == "quick" else 4, "operands": "0..3", "row values / literals": "unbounded integers",
                    "range containers": "fixed literals range(1,6,2), range(0,4,1)"},
         "outside": ["deeper nesting", "non-integer values", "custom functions"],
         "assumptions": ["exprsem.z3_of_ast is the intended meaning of the portable operator set"],
